@@ -1,6 +1,9 @@
 package props
 
 import (
+	"fmt"
+	"net"
+	"time"
 	"verif/harness/internal/frames"
 	"verif/harness/internal/fw"
 )
@@ -144,4 +147,99 @@ func genC14(r *fw.Rng, tier string, emit func(fw.Case)) {
 	}
 }
 
-var C14 = &fw.Prop{ID: "C14", Gen: genC14, Oracle: oracleParse, Exec: execParse, Class: classParse}
+var rereqLast struct {
+	key string
+	orc *fw.OracleFailure
+}
+
+var C14 = &fw.Prop{ID: "C14",
+	Gen: func(r *fw.Rng, tier string, emit func(fw.Case)) {
+		genC14(r, tier, emit)
+		genRereqSock(r, tier, emit)
+	},
+	Oracle: func(c fw.Case) *fw.OracleFailure {
+		if c.Op == "rereqsock" {
+			return nil // the count is fixed by the specification (functional op): a divergence from the model is the failing input
+		}
+		return oracleParse(c)
+	},
+	Exec: func(c fw.Case) string {
+		if c.Op == "rereqsock" {
+			res, _ := execRereqSock(c.Args[0])
+			return res
+		}
+		return execParse(c)
+	},
+	Class: func(c fw.Case, res string) string {
+		if c.Op == "rereqsock" {
+			return "rereqsock"
+		}
+		return classParse(c, res)
+	}}
+
+// ---- rereqsock: the same mechanism over a live connection, in real time -------------------------------------------
+// Many transfers (different message IDs) on one connection, each missing a packet; after 5.2 s of silence the
+// next inbound message must produce one 0x8003 per transfer — none may be dropped because several are due at once.
+
+func execRereqSock(sess string) (string, *fw.OracleFailure) {
+	convStart()
+	convMu.Lock()
+	defer convMu.Unlock()
+	rec := &convRecorder{}
+	convCurMu.Lock()
+	convCur = rec
+	convCurMu.Unlock()
+	c, err := net.DialTimeout("tcp", convAddr, 2*time.Second)
+	if err != nil {
+		return "dial-failed", &fw.OracleFailure{Sig: "server/refuses-connection", Msg: err.Error()}
+	}
+	defer c.Close()
+	var all []byte
+	buf := make([]byte, 65536)
+	readFor := func(d time.Duration) {
+		_ = c.SetReadDeadline(time.Now().Add(d))
+		for {
+			n, err := c.Read(buf)
+			all = append(all, buf[:n]...)
+			if err != nil {
+				return
+			}
+		}
+	}
+	for _, ch := range decodeSession(sess) {
+		if ch.dt > 0 {
+			readFor(time.Duration(ch.dt) * time.Millisecond)
+		}
+		if _, err := c.Write(ch.data); err != nil {
+			break
+		}
+	}
+	readFor(800 * time.Millisecond)
+	fs, _ := splitFrames(all)
+	n := 0
+	for _, f := range fs {
+		if h, _, ok := frames.Parse(f); ok && h.ID == 0x8003 {
+			n++
+		}
+	}
+	return fmt.Sprintf("rereq=%d", n), nil
+}
+
+func genRereqSock(r *fw.Rng, tier string, emit func(fw.Case)) {
+	counts := []int{8}
+	if tier == "thorough" {
+		counts = []int{2, 5, 8, 12}
+	}
+	ids := []uint16{0x0801, 0x0200, 0x0704, 0x0102, 0x0100, 0x0805, 0x1205, 0x0104, 0x0001, 0x0800, 0x1003, 0x1005}
+	for _, k := range counts {
+		phone := frames.RandPhone(r, false)
+		var first []byte
+		for i := 0; i < k; i++ {
+			for _, no := range []uint16{1, 3} {
+				first = append(first, frames.Build(frames.H{ID: ids[i], Phone: phone, Serial: uint16(10*i) + no, Frag: true, Sum: 3, No: no}, r.Bytes(20))...)
+			}
+		}
+		hb := frames.Build(frames.H{ID: 0x0002, Phone: phone, Serial: 999}, nil)
+		emit(fw.Case{Op: "rereqsock", Args: []string{encodeSession([]pchunk{{0, first}, {5200, hb}})}})
+	}
+}
